@@ -4,7 +4,7 @@ package textwire
 
 import "github.com/textwire/textwire/v2/config"
 
-const c16Names = 9
+const c16Names = 10 // pages that the history harness draws from; the two @dump pages are used by HarnessC16Dump
 
 type c16Result struct {
 	out, err, body string
@@ -21,6 +21,9 @@ func c16Tree() *Template {
 	vfsWriteFile("templates/ok.tw", "@use(\"~main\")@insert(\"r\")@each(v in vs)@component(\"~card\", {t: v})@end@end")
 	vfsWriteFile("templates/bad.tw", "head{{ 1 / d > 0 ? 'p' : 'n' }}")
 	vfsWriteFile("templates/err.tw", "Custom oops")
+	vfsWriteFile("templates/chain.tw", "@if(d > 5)a@elseif(d > 4)b@elseif(d > 3)c@elseif(d > 2)e@else f@end")
+	vfsWriteFile("templates/dump.tw", "@dump(1)|@dump(\"s\")")
+	vfsWriteFile("templates/dumpbad.tw", "@dump(d){{ d == 0 ? nope : \"\" }}")
 	vfsWriteFile("templates/shuf.tw", "{{ vs.shuffle().len() }}{{ vs.shuffle().contains(\"z\") }}")
 	// fails in the second pass of either loop for some divisors, after the first pass has produced text
 	vfsWriteFile("templates/rows.tw", "@each(v in vs)[{{ v }}{{ d == loop.index ? nope : \"p\" }}]@end@for(i = 0; i < 3; i++)({{ d == i + 10 ? nope : \"q\" }})@end")
@@ -35,7 +38,7 @@ func c16Tree() *Template {
 
 // c16Op runs one of the rendering operations; name and data are chosen by the caller.
 func c16Op(tpl *Template, op, name int, d int64, s string) c16Result {
-	names := []string{"ok", "bad", "missing", "prof", "prof", "setter", "reader", "rows", "shuf"}
+	names := []string{"ok", "bad", "missing", "prof", "prof", "setter", "reader", "rows", "shuf", "chain", "dump", "dumpbad"}
 	data := map[string]any{"vs": []any{s, "z"}, "d": d}
 	switch name {
 	case 3:
@@ -117,7 +120,7 @@ func c16Op(tpl *Template, op, name int, d int64, s string) c16Result {
 func c16Snapshot(tpl *Template) string {
 	out := userConfig.TemplateDir + "|" + userConfig.TemplateExt + "|" + userConfig.ErrorPagePath + "|" + b01(userConfig.DebugMode) + "|"
 	out += string([]byte{byte('0' + len(customFunc.Str) + len(customFunc.Arr) + len(customFunc.Int) + len(customFunc.Float) + len(customFunc.Bool))})
-	for _, n := range []string{"ok", "bad", "err", "prof", "setter", "reader", "rows", "shuf"} {
+	for _, n := range []string{"ok", "bad", "err", "prof", "setter", "reader", "rows", "shuf", "chain", "dump", "dumpbad"} {
 		if p, ok := tpl.programs[n]; ok {
 			out += "|" + n + "=" + p.String()
 		}
@@ -183,4 +186,35 @@ func c16LocalUser2(n string) any {
 		Name string
 	}
 	return user{2, n}
+}
+
+
+// HarnessC16Dump: a page with @dump renders the same after a render that failed behind an @dump as it does first.
+func HarnessC16Dump() {
+	c16ErrorPage, c16Debug = "err", false
+	fresh := c16Tree()
+	tpl := c16Tree()
+	base := c16Op(fresh, 0, 10, 1, "s")
+	vAssert(base.err == "", "dump-page-renders")
+	switch vChoice("history", 4) {
+	case 1:
+		r := c16Op(tpl, 0, 11, 0, "s") // fails behind its @dump
+		vAssert(r.err != "", "faulty-template-fails")
+	case 2:
+		r := c16Op(tpl, 1, 11, 0, "s")
+		vAssert(r.err != "", "faulty-template-fails")
+	case 3:
+		_, ferr := EvaluateString("@dump(1){{ nope }}", nil)
+		vAssert(ferr != nil, "faulty-template-fails")
+	}
+	var again c16Result
+	if vChoice("probe", 2) == 0 {
+		again = c16Op(tpl, 0, 10, 1, "s")
+	} else {
+		out, err := EvaluateString("@dump(1)|@dump(\"s\")", nil)
+		vAssert(err == nil, "dump-page-renders")
+		again = c16Result{out: out}
+	}
+	vCover("probed")
+	vAssert(c16Same(base, again), "result-does-not-depend-on-earlier-calls")
 }
